@@ -462,8 +462,16 @@ def _sib_ups(prog, i):
 
 def _gen_prog(rng, depth, budget, n_max, p_macro, is_macro):
     """a composite body; `budget` = [leaves still available]"""
-    n = rng.randint(2 if depth else 2, n_max)
-    order, slots = c01.gen_dag(rng, n, 0.6)
+    n = rng.randint(2, n_max)
+    order, slots = c01.gen_dag(rng, n, rng.choice([0.35, 0.6]))
+    lonely = None
+    if rng.random() < 0.5:
+        # an independent child (no upstream, nobody downstream): the sibling that can be in flight on the executor
+        # at any moment of the others' run
+        lonely = n
+        n += 1
+        order.insert(rng.randrange(len(order) + 1), lonely)
+        slots[str(lonely)] = [[], [], []]
     kids, gid = {}, {}
     # which children are macros: bias towards children WITH upstream (signal-started) but allow starters
     for i in range(n):
@@ -481,7 +489,8 @@ def _gen_prog(rng, depth, budget, n_max, p_macro, is_macro):
             slots[str(i)][k] = name
     used = {j for i in range(n) for j in _sib_ups({"slots": slots}, i)}
     sinks = [i for i in range(n) if i not in used]
-    return {"n": n, "order": order, "slots": slots, "kids": kids, "gid": gid, "ret": rng.choice(sinks)}
+    return {"n": n, "order": order, "slots": slots, "kids": kids, "gid": gid, "ret": rng.choice(sinks),
+            **({"lonely": lonely} if lonely is not None else {})}
 
 
 def _number(prog):
@@ -514,11 +523,15 @@ def gen_nest_case(rng, depth, classes, n_max=4, base=False):
     pool = deep[: max(2, len(deep) // 2)] if rng.random() < 0.6 else leaves
     fl = rng.sample(pool, min(k, len(pool)))
     fails = {l: rng.choice(classes) for l in fl}
-    ex = [l for l in leaves if rng.random() < 0.35] + [c for c in comps if rng.random() < 0.25]
+    lonely = {_pstr(p + (pr["lonely"],)) for p, pr in _walk(prog) if "lonely" in pr}
+    ex = [l for l in leaves if rng.random() < (0.8 if l in lonely else 0.3)] + [
+        c for c in comps if rng.random() < (0.5 if c in lonely else 0.2)]
+    # 0 = "nobody completes at this emission"; an empty list = the laziest schedule: a job completes only when
+    # some loop has nothing else to do
+    lazy = rng.random() < 0.4
     return {"kind": "nest", "prog": prog, "fails": fails, "exec": sorted(ex),
             "mode": rng.choice(["ctl", "ctl", "ctl-cloudpickle"]),
-            # 0 = "nobody completes at this emission": biased towards late completions
-            "choices": [rng.choice([0, 0, 0, 1, 2, 3]) for _ in range(60)],
+            "choices": [] if lazy else [rng.choice([0, 0, 0, 1, 2, 3]) for _ in range(60)],
             "prerun": rng.random() < 0.3, **({"base": True} if base else {})}
 
 
@@ -735,12 +748,12 @@ def _nest_obs(case, r):
         n = pr["n"]
         done = r["done_log"][ps]
         ex = r["exec_log"][ps]
+        # a macro that was not started in THIS run still carries the logs of an earlier one
+        started = all(p[k] in r["exec_log"][_pstr(p[:k])] for k in range(len(p)))
         if p:
-            over = p[-1] in r["done_log"][_pstr(p[:-1])]
+            over = started and p[-1] in r["done_log"][_pstr(p[:-1])]
         else:
             over = not r["outcome"].startswith("stuck")
-        # a macro that was never started keeps the logs of ... nothing: it has none
-        started = (not p) or p[-1] in r["exec_log"][_pstr(p[:-1])]
         if not started:
             done, ex = [], []
 
